@@ -202,6 +202,36 @@ func runC09(o Opts) error {
 	if gos1 > gos0 {
 		s.Fail(map[string]any{"op": "resources", "fault": "goroutines", "before": gos0, "after": gos1}, fmt.Sprintf("the process holds %d more goroutines after %d calls than before", gos1-gos0, calls))
 	}
+	// LAST (a lock that is never released would block every later fixed-port call of this process): a TCP connect that
+	// is refused on a fixed bind port, then an ordinary call on the same port - it must be served, not wait forever
+	{
+		dead := freeUDPPort()
+		nextIndex++
+		idx := nextIndex
+		farm.Plan(idx, Behaviour{Delay: 20 * time.Millisecond})
+		ok1 := uint32(800000055)
+		u := farmClient(&Farm{Port: farm.Port, TPort: dead}, fixedPort, T, []uint32{ok1}, []uint32{800000056})
+		u.GetEvent(800000056, idx+1000000) // refused: fails at once
+		res := make(chan error, 1)
+		st := time.Now()
+		go func() {
+			e, err := u.GetEvent(ok1, idx)
+			if err == nil && (e == nil || e.Index != idx) {
+				err = fmt.Errorf("wrong reply")
+			}
+			res <- err
+		}()
+		js := map[string]any{"op": "timed", "fault": "call-after-refused-tcp-on-fixed-port", "path": "udp", "fixed_port": true}
+		select {
+		case err := <-res:
+			if err != nil || time.Since(st) > T+150*time.Millisecond {
+				s.Fail(js, fmt.Sprintf("a call on the fixed bind port after a refused TCP connect returned %v after %d ms", err, ms(time.Since(st))))
+			}
+		case <-time.After(T + 2*time.Second):
+			s.Fail(js, fmt.Sprintf("a call on the fixed bind port after a refused TCP connect had not returned %d ms after its timeout of %d ms (the port lock was not released)", 2000, ms(T)))
+		}
+		s.Extra["call_after_refused_tcp_on_fixed_port"] = "ran"
+	}
 	return s.Close()
 }
 
